@@ -335,7 +335,7 @@ def g_malformed(rng):
         return fix_checksum(data) if rng.random() < 0.7 else data
     if k < 0.30:
         # a chunk of a known type with an arbitrary body / arbitrary length field
-        t = rng.choice(ALL_TYPES)
+        t = rng.choice(ALL_TYPES + (0, 0, 0, 1, 2, 3, 3, 7, 7, 192, 192))
         n = rng.choice([0, 1, 2, 3, 4, 5, 7, 8, 11, 12, 13, 15, 16, 17, 19, 20, rng.randrange(0, 64)])
         fixed = {0: 12, 1: 16, 2: 16, 3: 12, 7: 4, 192: 4}.get(t)
         if fixed is not None and rng.random() < 0.5:
@@ -755,6 +755,19 @@ class C08(Check):
                         f"parse_packet raised a non-ValueError exception / hung on {len(data)} bytes")
             if impl_out[0] == 0 and not checksum_ok(data):
                 return ("bad-checksum-accepted", "parse_packet accepted a packet whose checksum does not verify")
+            if impl_out[0] == 0:
+                # whatever was parsed serialises again and parses back to itself
+                from aiortc.rtcsctptransport import parse_packet, serialize_packet
+                sp, dp, tag, chunks = impl_out[1]
+                for c in chunks:
+                    try:
+                        again = serialize_packet(sp, dp, tag, chunk_obj(c))
+                        sp2, dp2, tag2, cs2 = parse_packet(again)
+                        back = [sp2, dp2, tag2, [chunk_list(x) for x in cs2]]
+                    except Exception as exc:  # noqa
+                        return ("parsed-chunk-not-serialisable", f"{str(c)[:200]}: {exc!r}")
+                    if back != [sp, dp, tag, [c]]:
+                        return ("parsed-chunk-reparse-differs", f"{str(c)[:200]} -> {str(back)[:200]}")
             return None
         if k in ("decp", "rpp"):
             if impl_out and impl_out[0] in (-2, -3):
